@@ -10,7 +10,7 @@ from vf import gen_edif, gen_ir, model
 from vf.core import Prop, Result
 
 NAMES = ["a", "b", "c", "d", "clk", "data", "q", "sel", "Top", "U1", "n_1", "x y", "a.b", "3d", "w/e",
-         "net$1", "Q", "B", "row[0].q", "row[1].q", "m[2]x", "_u", "$v"]
+         "net$1", "Q", "B", "row[0].q", "row[1].q", "m[2]x", "_u", "$v", "[1]"]
 
 
 def parse_text(text):
